@@ -14,7 +14,7 @@ RULE = ("the finite matrix decorator {asynq, asynq pure, async_proxy, asynq+sync
 ASSUMPTIONS = ["aretry / alru_cache / acached_per_instance are exercised on the bindings they are written for (functions and instance methods)",
                "@async_proxy(pure=True) returns the function unchanged and is not part of the property's enumerated domain (DESIGN.md note N2)"]
 
-DECOS = ["asynq", "pure", "proxy", "pair", "proxy_pair", "mad", "dedupe", "aretry", "alru", "per_instance"]
+DECOS = ["asynq", "pure", "proxy", "pair", "proxy_pair", "mad", "mad_pure", "dedupe", "aretry", "alru", "per_instance"]
 BINDINGS = ["function", "instance", "class", "subclass", "classmethod", "staticmethod"]
 SIGS = {"x": "x", "x_y": "x, y=10", "x_kz": "x, *, z=20", "x_y_kz": "x, y=10, *, z=20"}
 BODIES = ["plain", "gen", "block", "raise", "retfuture", "raise_base"]
@@ -82,6 +82,9 @@ def define(deco, kind, name, params, recv_param, recv_expr, wrap, sig):
         src += fn(["async_proxy(sync_fn=_sync_%s)" % name], name, ind + "    return " + inner_call + "\n")
     elif deco == "mad":
         src += fn(["_mad", "asynq()"], name, body_src(kind, "async", recv_expr, ind + "    "))
+    elif deco == "mad_pure":
+        # a make_async_decorator wrapper over a *pure* async function: the wrapper itself has .asynq and is not pure
+        src += fn(["_mad_pure", "asynq(pure=True)"], name, body_src(kind, "async", recv_expr, ind + "    "))
     elif deco == "dedupe":
         src += fn(["deduplicate()", "asynq()"], name, body_src(kind, "async", recv_expr, ind + "    "))
     elif deco == "aretry":
@@ -96,6 +99,7 @@ def define(deco, kind, name, params, recv_param, recv_expr, wrap, sig):
 def module_src(deco, sig, kind):
     params = SIGS[sig]
     src = "def _mad(fn):\n    def wrapper(*a, **k):\n        return fn.asynq(*a, **k)\n    return make_async_decorator(fn, wrapper, 'mad')\n\n"
+    src += "def _mad_pure(fn):\n    def wrapper(*a, **k):\n        return fn(*a, **k)\n    return make_async_decorator(fn, wrapper, 'mad_pure')\n\n"
     src += "@asynq()\ndef child(x):\n    return ['child', x]\n\n"
     for k in BODIES:
         src += "@asynq()\ndef _inner_%s(recv, x, y, z):\n" % k
